@@ -215,6 +215,12 @@ parse_next_record_header:
     rc = tls13ParseRecordHeader(ssl,
             &pb,
             requiredLen);
+    if (rc == SSL_PARTIAL)
+    {
+        /* Ignored ChangeCipherSpec records in front of the incomplete
+           header are not consumed and stay in the buffer. */
+        *requiredLen += parsedBytes;
+    }
     HANDLE_PARSE_RC(rc, SSL_ALERT_ILLEGAL_PARAMETER);
 #ifdef DEBUG_TLS_1_3_DECODE
     psTracePrintRecordHeader(&ssl->rec, PS_TRUE);
